@@ -377,6 +377,59 @@ fn tq_builder_finalize_contract() {
 }
 
 
+// The four constructors that do not go through the builder (`new`, `with_recent_ratio`, `with_ghost_ratio`,
+// `with_2q_parameters`) carry their own copy of the validation and sizing code: same contract as the builder's, with the
+// documented defaults substituted.  (Found by listing the public functions no harness mentioned.)  RandomState::new is
+// stubbed: the index shim never consults the hasher.
+#[cfg(feature = "std")]
+fn stub_random_state_new() -> std::collections::hash_map::RandomState {
+    unsafe { core::mem::zeroed() }
+}
+
+// kind: proved (sizes 0..=2^32 and both ratios over all f64 incl. NaN, infinities, subnormals; floor/mul/casts are CBMC's exact IEEE model)
+#[cfg(feature = "std")]
+#[kani::proof]
+#[kani::unwind(6)]
+#[kani::solver(cadical)]
+#[kani::stub(std::hash::RandomState::new, stub_random_state_new)]
+fn tq_direct_constructors_contract() {
+    let size: usize = kani::any();
+    kani::assume(size <= (1usize << 32));
+    let rr_in: f64 = kani::any();
+    let gr_in: f64 = kani::any();
+    let which: u8 = kani::any();
+    kani::assume(which < 4);
+    kani::cover!(which == 0 && size > 0, "2q new");
+    kani::cover!(which == 1 && size > 0 && ratio_ok(rr_in), "2q with_recent_ratio");
+    kani::cover!(which == 2 && size > 0 && ratio_ok(gr_in), "2q with_ghost_ratio");
+    kani::cover!(which == 3 && size > 0 && ratio_ok(rr_in) && ratio_ok(gr_in), "2q with_2q_parameters");
+    type TqD = TwoQueueCache<u8, u8>;
+    let (r, rr, gr): (Result<TqD, CacheError>, f64, f64) = match which {
+        0 => (TqD::new(size), DEFAULT_2Q_RECENT_RATIO, DEFAULT_2Q_GHOST_RATIO),
+        1 => (TqD::with_recent_ratio(size, rr_in), rr_in, DEFAULT_2Q_GHOST_RATIO),
+        2 => (TqD::with_ghost_ratio(size, gr_in), DEFAULT_2Q_RECENT_RATIO, gr_in),
+        _ => (TqD::with_2q_parameters(size, rr_in, gr_in), rr_in, gr_in),
+    };
+    let quota = crate::polyfill::floor((size as f64) * rr) as usize;
+    let ghost = crate::polyfill::floor((size as f64) * gr) as usize;
+    match r {
+        Err(CacheError::InvalidSize(s)) => ck!(s == 0 && (size == 0 || (ratio_ok(rr) && ratio_ok(gr) && ghost == 0)), "[C05.ctor] InvalidSize(0) exactly for size 0 or a ghost bound that floors to 0"),
+        Err(CacheError::InvalidRecentRatio(x)) => ck!(size != 0 && !ratio_ok(rr) && (x == rr || rr != rr), "[C05.ctor] InvalidRecentRatio exactly for a recent ratio outside [0,1] or NaN"),
+        Err(CacheError::InvalidGhostRatio(x)) => ck!(size != 0 && ratio_ok(rr) && !ratio_ok(gr) && (x == gr || gr != gr), "[C05.ctor] InvalidGhostRatio exactly for a ghost ratio outside [0,1] or NaN"),
+        Ok(c) => {
+            ck!(size != 0 && ratio_ok(rr) && ratio_ok(gr) && ghost != 0, "[C05.ctor] construction succeeds only for valid arguments");
+            let (a, wf) = c.verif_check();
+            ck!(wf && a.recent.n == 0 && a.frequent.n == 0 && a.ghost.n == 0, "[C05.ctor][C03.wf] a fresh 2Q cache is empty and well formed");
+            ck!(a.size == size && a.recent.cap == size && a.frequent.cap == size, "[C08.sizes] both resident queues can hold `size` entries");
+            ck!(a.recent_size == quota, "[C08.sizes] the recent quota is floor(size x recent ratio) (documented default when not given)");
+            ck!(a.ghost.cap == ghost, "[C08.sizes] the ghost bound is floor(size x ghost ratio) (documented default when not given)");
+            ck!(quota <= size && ghost <= size, "[C01.cap][C08.sizes] quota and ghost bound never exceed the size");
+            c.verif_forget();
+        }
+    }
+}
+
+
 // ------------------------------------------------------------------ ownership conservation (C04), unit K-LEAK
 
 // tier: thorough (dropping whole composite caches with tracked payloads is expensive for CBMC)
